@@ -278,6 +278,8 @@ def axis_events(chk, prefix='C06', stride=3):
     quick = chk.tier == 'quick'
     batch = obs.Batch('ObsC06')
     nffts = list(range(1, 131 if quick else 521)) + [250, 256, 500, 512, 1000, 1001, 1023, 1024]
+    # past 4096 (the library's default NFFT) and 8192; the thorough tier also past 16384 and 65536
+    nffts += [4097, 4098, 5001, 8192, 8193] + ([] if quick else [16385, 16386, 65537])
     # objects built now and queried only after all the others below have been built and used (objects alive together)
     early = []
     for n, samp, dt in ((7, 3.0, 'real'), (12, 0.1, 'complex'), (33, 44100.0, 'real'), (64, 1.0, 'complex')):
@@ -314,11 +316,26 @@ def axis_events(chk, prefix='C06', stride=3):
                         # a stored vector converted at this NFFT: length of every layout, power, and the way back
                         ev['conv_ok'] = True
                         if sides == 'twosided':
-                            def conv():
-                                q = Spectrum(data, NFFT=n, sampling=samp)
+                            def conv(wide=False):
                                 ln0 = len(bins('onesided' if dt == 'real' else 'twosided', n))
                                 v0 = 1.0 + np.arange(ln0) % 7
-                                q.psd = v0.copy()
+                                if wide:
+                                    # a spectrum with a dynamic range beyond 1/eps (lines over a numerically silent floor)
+                                    v0 = v0 * 10.0 ** (-19.0 * (np.arange(ln0) % 3 == 1)) * 10.0 ** (18.0 * (np.arange(ln0) % 5 == 2))
+                                if dt == 'complex':
+                                    # the object was built (and its axes were read) for another NFFT: a stored vector of n values
+                                    # makes it an n-point spectrum
+                                    q = Spectrum(data, NFFT=n + 3, sampling=samp)
+                                    for s_ in ('twosided', 'centerdc'):
+                                        q.frequencies(s_)
+                                    q.psd = v0.copy()
+                                    for s_ in ('twosided', 'centerdc'):
+                                        fa = np.asarray(q.frequencies(s_), dtype=float)
+                                        if len(fa) != n or np.max(np.abs(fa - np.array(bins(s_, n), dtype=float) * samp / n)) > 1e-12 * samp:
+                                            return False
+                                else:
+                                    q = Spectrum(data, NFFT=n, sampling=samp)
+                                    q.psd = v0.copy()
                                 t = np.asarray(q.get_converted_psd('twosided'), dtype=float)
                                 c = np.asarray(q.get_converted_psd('centerdc'), dtype=float)
                                 q.sides = 'centerdc'
@@ -327,7 +344,8 @@ def axis_events(chk, prefix='C06', stride=3):
                                 return bool(len(t) == n and len(c) == n and abs(t.sum() - v0.sum()) <= 1e-9 * v0.sum()
                                             and abs(c.sum() - v0.sum()) <= 1e-9 * v0.sum() and back.shape == v0.shape and np.allclose(back, v0, rtol=1e-12, atol=0))
                             okc, good = call_guard(conv)
-                            ev['conv_ok'] = bool(okc and good)
+                            okw, goodw = call_guard(conv, True)
+                            ev['conv_ok'] = bool(okc and good and okw and goodw)
                     else:
                         ev.update(len=0, first=0, last=0, dev=0, noarg_same=False, conv_ok=True)
                     batch.add(ev)
